@@ -190,8 +190,16 @@ def run(tier):
         IC.verify_integrate_dense(src, reg, PID + "/integrate[dense,forward,callback]", callbacks=1)
         IC.verify_integrate_dense(src, reg, PID + "/integrate[dense,backward]", callbacks=0, direction=-1)
         IC.verify_integrate_dense(src, reg, PID + "/integrate[dense,backward,callback]", callbacks=1, direction=-1)
+        # "... and after events": the event block with dense output kept (one piece per recorded step survives event handling, a
+        # terminal stop and an exception from an event function); the event properties themselves are C07-C09
+        from . import integrate_events as IE
+        reg.fail_fast = (3, 25)          # no obligation of this check is expected to fail: stop after the first few that do
+        for terms in ((False,), (True,)) if tier == "thorough" else ((True,),):
+            IE.verify_integrate_events(src, reg, PID + "/" + IE.config_label(1, terms, 1, 0, True), n=1, terminals=terms, direction=1, dense=True)
     except Unsupported as e:
         reg.undecided(PID + "/executor/unsupported", "unsupported", "executor", str(e))
+    except solver.FailFast as e:
+        R.notes.append(str(e))
     for ob in list(reg.obligations):
         if not ob.discharged and ob.kind != "cover":
             e = R.kf.match(PID, ob.name)
